@@ -451,6 +451,24 @@ CLAIMED.update(
     }
 )
 
+CLAIMED.update(
+    {
+        "C01": (
+            "abstract interpretation of the instruction generators (interpreted from source) on a symbolic operand stack per splice site; opcode whitelist; partition-representative evaluation of BasicBlockNode's index providers and of the tracer / seeding callbacks over adversarial representatives; index-origin dataflow for splice positions",
+            "Decides the structural clauses, for the adapters of all five supported interpreter versions: every template spliced into a code object (setup + optional overridden instruction + tracer call + teardown, "
+            "obtained by interpreting generate_setup/teardown/method_call instructions from source) leaves the symbolic operand stack as the uninstrumented instruction does, reads nothing below the operands available at "
+            "the site (per-opcode table / per-site table), hands an overridden instruction its operands in order and the tracer only copies of operands; the sequences contain no opcode that applies an operator to values "
+            "of the module under test; on 3.12+ no unchecked LOAD_FAST is emitted and a variable that an inlined comprehension saves or restores is not read; the indexes BasicBlockNode hands out address the instruction "
+            "in the basic block for blocks with pseudo-instructions, and positions counted over instructions reach a splice only through block_index_of (or are -1); the compare / bool / attribute callbacks and the "
+            "seeding entry points, interpreted over adversarial representatives (partial comparison protocols, raising __ne__/__eq__/__len__/property, huge ints, NaN, non-UTF-8 bytes, one-shot iterators, non-string "
+            "receivers, tuples of prefixes), raise nothing, consume no iterator and call no method of the value; extract_name and visit_jump handle every argument shape they are dispatched for. "
+            "Not decided: equality of results and side effects for arbitrary programs; that adapters compose; that the mirrored and the complementary comparison still run user operators (contained, not removed).",
+            "Trusts the opcode semantics table of sa/checks/_instr.py (stack effect of ~25 opcodes, operand counts of ~35 opcodes), the per-site operand table in sa/checks/c01.py, and sa/engine/peval.py.",
+            "DESIGN.md §3 C01",
+        ),
+    }
+)
+
 NOT_APPLICABLE: dict[str, str] = {
     "C06": "Correctness of the post-dominator/CDG construction on every code object is functional correctness of a graph "
     "algorithm; no shape of the code implies it and no sound static argument in reach bounds 'all code objects'.",
